@@ -766,6 +766,9 @@ class Screen(BaseScreen, RealTerminal):
         last_cols = str_util.calc_width(last_text, 0, len(last_text))
         last_offs, z_col = str_util.calc_text_pos(last_text, 0, len(last_text), last_cols - 1)
         if last_offs == 0:
+            if len(row) < 2:
+                # a single character fills the whole row: there is no Y to slide in
+                return row, 0, None
             z_text = last_text
             del new_row[-1]
             # we need another segment
